@@ -28,6 +28,10 @@ pub assume_specification<T: std::cmp::Ord>[std::cmp::min](a: T, b: T) -> (r: T)
         T::obeys_cmp_spec() ==> (r == if a.cmp_spec(&b) == core::cmp::Ordering::Greater { b } else { a }),
 ;
 
+// [trusted:assumed-spec] u64::abs_diff (not used by the current tree)
+pub assume_specification[u64::abs_diff](a: u64, b: u64) -> (r: u64)
+    ensures r == if a >= b { a - b } else { b - a },
+;
 // [trusted:assumed-spec] u32::abs_diff is the absolute difference (not used by the current tree; keeps rewrites of height comparisons decidable)
 pub assume_specification[u32::abs_diff](a: u32, b: u32) -> (r: u32)
     ensures r == if a >= b { a - b } else { b - a },
@@ -75,11 +79,12 @@ impl Depth {
 //@ spec
 //@| ensures r == self.0,
 //@end
-//@extract file=canister/src/blocktree.rs in="impl Depth" item="fn saturating_sub" props=C03
+//@extract file=canister/src/blocktree.rs in="impl Depth" item="fn saturating_sub" props=C03 optional=1
 //@ ret r
 //@ spec
 //@| ensures r.0 == if self.0 >= other.0 { (self.0 - other.0) as u64 } else { 0u64 },
 //@end
+//@rest file=canister/src/blocktree.rs in="impl Depth" except="new,get,saturating_sub" props=C03
 }
 
 impl DifficultyBasedDepth {
